@@ -106,6 +106,15 @@ def check_written(path, obs, hu):
             errs.append("header + serialised blocks + footer is not the file (%d vs %d bytes)" % (hlen + sum(psz) + 8, len(b)))
     if len(t["tidx"]) != t["nblocks"] or any(i >= t["nt"] for i in t["tidx"]):
         errs.append("type index outside the type table")
+    elif obs.get("bnames") is not None and hu == 0 and obs.get("hu2", "0") == "0":
+        # every block's entry in the type table names the block's real type (not for files with unknown blocks,
+        # whose NiUnknown objects carry no type name of their own)
+        real = [bytes.fromhex(x) for x in obs["bnames"].split(",")] if obs["bnames"] else []
+        if len(real) == t["nblocks"]:
+            for i, nm in enumerate(real):
+                if nm != b"NiUnknown" and t["types"][t["tidx"][i]] != nm:
+                    errs.append("type table entry of block %d names %r, the block is a %r" % (i, t["types"][t["tidx"][i]][:40], nm[:40]))
+                    break
     if t["file"] >= 0x14010001:
         if not hu and len(set(t["strings"])) != len(t["strings"]):
             errs.append("string table holds a string twice")
